@@ -125,7 +125,8 @@ pub(crate) fn remove_or_compress_too_old_logfiles_impl(
             #[cfg(feature = "compress")]
             {
                 // compress, if not yet compressed
-                if let Some(extension) = file.extension() {
+                // (log files that are configured without suffix may have no extension)
+                if let Some(extension) = file.extension().or(Some(std::ffi::OsStr::new(""))) {
                     if extension != "gz" {
                         let mut compressed_file = file.clone();
                         match compressed_file.extension() {
